@@ -55,6 +55,8 @@ type imageWorld struct {
 	needTx  map[int]bool    // image encoded since its last upload
 	logPos  int
 	checked int
+	qsize   int
+	noiseOn bool
 }
 
 func init() {
@@ -92,7 +94,7 @@ func (w *imageWorld) Describe() any {
 	if w.kitty {
 		proto = "kitty"
 	}
-	return map[string]any{"protocol": proto, "size": fmt.Sprintf("%dx%d", w.rows, w.cols), "images_px": w.px, "waits_for_encoders": w.settle, "frames": fr}
+	return map[string]any{"protocol": proto, "size": fmt.Sprintf("%dx%d", w.rows, w.cols), "images_px": w.px, "waits_for_encoders": w.settle, "event_queue": w.qsize, "frames": fr}
 }
 
 func (w *imageWorld) Build(t *simrt.Tape, spec RunSpec) {
@@ -100,6 +102,11 @@ func (w *imageWorld) Build(t *simrt.Tape, spec RunSpec) {
 	w.kitty = t.Draw(2) == 0
 	w.settle = t.Draw(3) != 0
 	w.nimg = 1 + t.Draw(3)
+	// queue pressure: a tiny event queue that other tasks keep full while
+	// the application is busy; the encoders' Redraw must still arrive
+	if w.settle && t.Draw(3) == 0 {
+		w.qsize = 1 + t.Draw(4)
+	}
 	for i := 0; i < w.nimg; i++ {
 		w.px = append(w.px, [2]int{4 + t.Draw(40), 4 + t.Draw(60)})
 	}
@@ -194,6 +201,8 @@ func (w *imageWorld) waitRedraws(n int) bool {
 	return true
 }
 
+type noiseEvent struct{}
+
 func (w *imageWorld) drain() {
 	for {
 		var ev vaxis.Event
@@ -210,7 +219,7 @@ func (w *imageWorld) app() {
 		w.env.shutdown()
 		w.s.Finish()
 	}()
-	vx, err := newVaxis(w.env, vaxis.Options{})
+	vx, err := newVaxis(w.env, vaxis.Options{EventQueueSize: w.qsize})
 	if err != nil {
 		w.res.Violate("new-failed", "vaxis.New", "%v", err)
 		return
@@ -263,8 +272,23 @@ func (w *imageWorld) app() {
 		if !fr.LateResize {
 			doResizes()
 		}
+		if w.settle && w.qsize > 0 && resizes > 0 {
+			// the application is busy for a moment while other tasks post
+			// (droppable) events: the queue is full when the encoders finish
+			w.noiseOn = true
+			w.s.Go("noise", func() {
+				for i := 0; i < 40 && w.noiseOn; i++ {
+					w.vx.PostEvent(noiseEvent{})
+					simrt.Sleep(500 * time.Microsecond)
+				}
+			})
+			simrt.Sleep(time.Duration(Grid[w.s.Tape.Draw(8)]) * time.Microsecond)
+			w.res.Fault("queue-full-while-encoding")
+		}
 		if w.settle {
-			if !w.waitRedraws(resizes) {
+			ok := w.waitRedraws(resizes)
+			w.noiseOn = false
+			if !ok {
 				w.res.Violate("encoder-stuck", "Image.Resize", "frame %d: %d Resize calls were made; their Redraw events did not all arrive within 60 simulated seconds: %v", fi, resizes, w.s.Picture())
 				return
 			}
